@@ -10,6 +10,7 @@ structure DSt where
   mods : List Mod := []
   ids : List (String × Bool × Bool) := []  -- item id, held?, onstop?  (index = position in st.items)
   printed : Nat := 0               -- reports already printed
+  dev : Bool := false              -- core/devMode
   manual : Bool := false           -- the error channel was configured by `chan`: it is read by `recv` ops only
   started : Bool := false
   startOK : Bool := false
@@ -26,6 +27,7 @@ def pvOf : String → Option PCls
   | "dl" | "wdl" => some .errDeadline
   | "cexit" | "wcexit" => some .errCleanExit
   | "moderr" | "nilerrptr" => some .err
+  | "nilstrg" => some .other
   | "str" => some .str
   | "rtidx" => some .rt
   | "rtnil" => some .rt
@@ -89,6 +91,9 @@ def insertSorted (s : String) : List String → List String
 def sortedRepsStr (rs : List Report) : String :=
   if rs.isEmpty then "-" else "+".intercalate ((rs.map repStr).foldr insertSorted [])
 
+/-- status of the response; `d`: the body is the dev-mode page (panic value and stack trace) -/
+def httpStr (it : Item) : String := s!"{it.http}{if it.detail then "d" else ""}"
+
 def cntStr (s : St) : String :=
   s!"{s.w},{s.t},{s.m},{s.g},{if s.c then 1 else 0}"
 
@@ -130,13 +135,13 @@ def kindOf : String → Option Kind
   | "mt-start-high" | "mt-start-med" | "mt-start-low" => some (.mt false)
   | "hook-trigger" | "hook-inject" => some .hook
   | "api-action" | "api-data" | "api-struct" | "api-record" | "api-handlerfunc" | "api-rawhandler" | "api-rawfunc" =>
-    some (.api false)
+    some (.api false false)
   | _ => none
 
 def rawHandlerKind (k : String) : Bool := k == "api-handlerfunc" || k == "api-rawhandler" || k == "api-rawfunc"
 
 def isApiKind : Kind → Bool
-  | .api _ => true
+  | .api _ _ => true
   | _ => false
 
 def validName (n : String) : Bool :=
@@ -232,7 +237,7 @@ def burstTok (d : DSt) (a : String) : Option Item :=
     match kindOf k, outcomesOf os with
     | some kd, some outs =>
       if isApiKind kd != d.apiMode || (kd == .hook && statusOf d.mods "B" != 5) || (kd == .task && taskBusy d) then none
-      else some { kind := kd, outs := outs }
+      else some { kind := (match kd with | .api aw _ => .api aw d.dev | k => k), outs := outs }
     | _, _ => none
   | _ => none
 
@@ -250,7 +255,7 @@ def burst (d : DSt) (args : List String) : DSt × String :=
         (match it.kind with
          | .runWorker => retStr it.cur it.ret
          | .mt true => retStr it.cur it.ret
-         | .api _ => toString it.http
+         | .api _ _ => httpStr it
          | _ => "-")
       | none => "?"
     let runs := idx.map fun i => match s2.items[i]? with
@@ -287,6 +292,10 @@ def handle (d : DSt) (line : String) : DSt × String :=
       | [n, "on"] => some n
       | _ => none
     ({ d with mgmt := true, mods := d.mods.map fun m => { m with enabled := on.contains m.name } }, "ok")
+  | ["devmode", v] =>
+    -- config.SetConfigOption("core/devMode", …); not while a request is in flight (the option is read when the handler panics)
+    if !d.apiMode || !d.startOK || d.down || !(v == "on" || v == "off") || d.ids.any (fun (_, held, _) => held) then (d, "bad-op")
+    else ({ d with dev := v == "on" }, "ok")
   | ["chan", c] =>
     -- SetErrorReportingChannel(nil | make(chan *ModuleError, c)) before anything runs; from now on only `recv` reads it
     if d.started || d.manual then (d, "bad-op") else
@@ -324,7 +333,7 @@ def handle (d : DSt) (line : String) : DSt × String :=
               | .mt b => b
               | _ => false
             let ret := if blocking then retStr it.cur it.ret else "-"
-            let http := if isApiKind it.kind then toString it.http else "-"
+            let http := if isApiKind it.kind then httpStr it else "-"
             let next := if it.kind == .svc then (if it.inFn then "reentered" else if it.done then "done" else "timeout") else "-"
             let exec := if it.kind == .task then toString it.executing else "-"
             ({ d2 with ids := setHeld d2.ids i it.inFn },
@@ -400,7 +409,7 @@ def handle (d : DSt) (line : String) : DSt × String :=
         || (k == .hook && statusOf d.mods "B" != 5)
         || (k == .task && taskBusy d)
       if bad then (d, "bad-op") else
-      let k' := if api then Kind.api (fl == "afterwrite") else k
+      let k' := if api then Kind.api (fl == "afterwrite") d.dev else k
       let i := d.st.items.length
       match step d.st (.spawn { kind := k', outs := os }) with
       | none => (d, "bad-op")
